@@ -5,9 +5,14 @@ cd "$(dirname "$0")/.."
 out=seeded/RESULTS.md
 echo "| change | exit | wall | signatures (first 3) |" > $out.tmp
 echo "|---|---|---|---|" >> $out.tmp
+# MATRIX_BASE=<commit>: only the changes seeded at that base commit; their lines replace the old ones in RESULTS.md
 for d in seeded/C*-*/; do
   n=$(basename $d); id=${n%-*}
   base=$(python3 -c "import json;print(json.load(open('$d/meta.json'))['base_commit'])")
+  if [ -n "${MATRIX_BASE:-}" ] && [ "$base" != "$MATRIX_BASE" ]; then
+    grep -a "^| $n |" $out >> $out.tmp 2>/dev/null
+    continue
+  fi
   r=$(SEED_BASE=$base scripts/try_seeded.sh $d/patch.diff $id quick ${1:-1} 2>&1)
   rc=$(echo "$r" | grep -a -o "exit=[0-9]*" | tail -1); wall=$(echo "$r" | grep -a -o "wall=[0-9]*s" | tail -1)
   sigs=$(echo "$r" | grep -a "signature:" | head -3 | sed 's/.*signature: //' | paste -sd';' | cut -c1-200)
